@@ -1225,6 +1225,10 @@ class XEvaluator(Evaluator):
         kwargs = kwargs or {}
         if cname not in self.prog.classes:
             raise Unsupported(f"construction of unknown class {cname}")
+        from .minieval import namedtuple_of
+        nt = namedtuple_of(self.prog.classes[cname].node, lambda d: self.expr(d, {}))
+        if nt is not None:
+            return nt(*args, **kwargs)               # a NamedTuple of the repository: the equivalent Python namedtuple
         if self.is_exception_class(cname):
             me = Obj(cname, args=tuple(args))
             init = self.methods.get((cname, "__init__"))
